@@ -172,6 +172,10 @@ def run(ctx) -> None:
                 judge(ctx, "flat_line", "qartod.flat_line_test",
                       {"inp": inp(), "tinp": T(n), "suspect_threshold": 60, "fail_threshold": 120, "tolerance": 2}, miss,
                       none, none, case)
+                # (a real-time chunk shorter than the durations asked for: nothing can be flat-lined, missing is still MISSING)
+                judge(ctx, "flat_line|durations-longer-than-the-record", "qartod.flat_line_test",
+                      {"inp": inp(), "tinp": T(n), "suspect_threshold": 3600, "fail_threshold": 7200, "tolerance": 2}, miss,
+                      none, none, case)
                 for kind in ("std", "range"):
                     judge(ctx, f"attenuated-{kind}-whole", "qartod.attenuated_signal_test",
                           {"inp": inp(), "tinp": T(n), "suspect_threshold": 5, "fail_threshold": 1, "check_type": kind},
